@@ -41,7 +41,7 @@ def proj(c):
 
 def dump(cfg_file, workdir, workers=8, timeout=1800):
     os.makedirs(workdir, exist_ok=True)
-    for f in ("Minimq.tla", "MC_flow.tla", cfg_file):
+    for f in ("Minimq.tla", "MC_flow.tla", "Quota.tla", cfg_file):
         subprocess.run(["cp", os.path.join(SPEC, f), workdir], check=True)
     dot = os.path.join(workdir, "graph.dot")
     cmd = "timeout %d %s -workers %d -dump dot,actionlabels %s -metadir %s/meta -cleanup -noGenerateSpecTE -config %s MC_flow.tla" % (
